@@ -66,6 +66,14 @@ SPECS = {
         cap={"quick": 1500, "thorough": 20000},
         event_cfg="EventGen_wide.cfg",
     ),
+    "C10": pcheck.PSpec(
+        "C10",
+        clauses=["Accepts", "Compiles", "BookingFault", "RowsMatch", "SpuriousFault", "FaultMissed", "SchemaMatches", "WarnsIffUndeclared"],
+        profiles={"quick": [("MCQueryGen_types.cfg", None, {"md10": True, "checkwarn": True})],
+                  "thorough": [("MCQueryGen_types_t.cfg", None, {"md10": True, "checkwarn": True})]},
+        events={"quick": 8, "thorough": 24},
+        cap={"quick": 1200, "thorough": 20000},
+    ),
     "C11": pcheck.PSpec(
         "C11",
         clauses=["Accepts", "Compiles", "BookingFault", "RowsMatch", "SpuriousFault", "SchemaMatches"],
